@@ -168,14 +168,14 @@ func (i Int32) BitwiseXor(other Value) (Int32, Value) {
 
 func (i Int32) LeftBitshiftInt32(other Int32) Int32 {
 	if other < 0 {
-		return i >> -other
+		return i >> uint32(-other)
 	}
 	return i << other
 }
 
 func (i Int32) RightBitshiftInt32(other Int32) Int32 {
 	if other < 0 {
-		return i << -other
+		return i << uint32(-other)
 	}
 	return i >> other
 }
@@ -194,8 +194,7 @@ func (i Int32) ExponentiateInt32(other Int32) Int32 {
 		return 1
 	}
 	result := i
-	var j Int32
-	for j = 2; j <= other; j++ {
+	for j := other; j > 1; j-- {
 		result *= i
 	}
 	return result
